@@ -34,7 +34,8 @@ func init() {
 			"v, err := <child>.Eval(ctx, row) of a child expression, each write to the buffer's state that can execute after that evaluation (a store or map update through the receiver, " +
 			"or a module call that receives the receiver or a pointer reached through it) lies in a region where v is known non-NULL: dominated by the non-nil edge of v == nil / v != nil / " +
 			"reflect.TypeOf(v) == nil, of a nil test of Type.Convert(ctx, v)'s result (Convert maps NULL to NULL with a nil error, checked by C27-V0), or by a boolean flag that is set only " +
-			"on such edges. A write outside such a region accumulates a NULL input (counts it, overwrites the running value with it, or converts it to 0).",
+			"on such edges. A write outside such a region accumulates a NULL input (counts it, overwrites the running value with it, or converts it to 0). " +
+			"(W1) a new partition / peer group starts when ANY key differs: the window change detectors (key expressions + two rows -> (bool, error), comparing key by key with Type.Compare) answer true at the first key whose comparison is non-zero and false after the loop over all keys - ranking functions and RANGE frames take their ties from these boundaries.",
 		NotCovered: "the values the accumulators compute, window-function execution (WindowFunction.Compute and framing), buffers that evaluate children only through helpers (groupConcatBuffer), GROUP_CONCAT ordering, DISTINCT handling",
 		Technique:  "sibling agreement over all implementations of an interface method: SSA dominance of a nil test over every accumulator write (nil-guard engine)",
 		Run: func(c *Ctx) {
@@ -44,6 +45,8 @@ func init() {
 			}
 			runC08(c, c08Config{Rels: rels, IfaceRel: "sql", BufIface: "AggregationBuffer", UpdateM: "Update", ExprIface: "Expression", EvalM: "Eval",
 				TypeIface: "Type", ConvertM: "Convert", ReflectNilF: true, Floor: 14})
+			c.Rule("C08-W1", "window change detectors (key expressions + two rows -> (bool, error), comparing key by key): true at the first key whose comparison is non-zero, false after the loop over all keys", 2)
+			ruleChangeDetectorPolarity(c, "C08-W1", "sql/expression/function/aggregation")
 		},
 		Fixture: func(c *Ctx, fx *Prog) {
 			expectFixture(c, fx, "c08: accumulate without nil test, count before test, helper call before test",
